@@ -256,12 +256,10 @@ func C11(e *Env) {
 			// not the served root, so the REDKEY lookup happens relative to the served root.
 			res := RunLockstep(addr, w, reqs, e.Watchdog, 0, false)
 			run.Count("layouts_through_network", 1)
-			if res.Fail != nil && !res.Fail.Inconclusive {
+			if res.Fail != nil {
 				wit["requests"] = reqStrings(reqs)
 				wit["transcript"] = tailStr(res.Log, 10)
-				run.Violate("net-"+res.Fail.Rule, fmt.Sprintf("key=%s,wm=%s,len=%s", l.Key, l.WM, l.Len), fmt.Sprintf("[%s] %s", l, res.Fail.Detail), wit)
-			} else if res.Fail != nil {
-				run.Inconclusive(res.Fail.Error())
+				judgeModelFail(e, res.Fail, reqs, res.FailAt, "net-", fmt.Sprintf("key=%s,wm=%s,len=%s", l.Key, l.WM, l.Len), fmt.Sprintf("[%s] %s", l, res.Fail.Detail), wit)
 			}
 		}
 		if i%400 == 0 {
